@@ -107,6 +107,30 @@ def concrete_fft(op, arr, axis, n, out_dtype, params):
     return SArr(out.shape, out.elem, out_dtype, arr.backend, opaque=(op, axis, arr))
 
 
+def _entailed_or_undecided(ctx, cond):
+    """Congruence of two applications of an uninterpreted transform: entailed (same result), refutable (a fresh
+    result), or -- when the solver can decide neither within the retried budget -- an undecided path: guessing
+    'different' would turn a solver timeout into a refuted postcondition."""
+    cond = V.conc(cond)
+    if isinstance(cond, bool):
+        return cond
+    ctx.solver.push()
+    try:
+        ctx.solver.add(z3.Not(cond))
+        r = ctx.solver.check()
+        if r == z3.unknown:
+            ctx.solver.set("timeout", ctx.BRANCH_TIMEOUT_MS * 10)
+            try:
+                r = ctx.solver.check()
+            finally:
+                ctx.solver.set("timeout", ctx.BRANCH_TIMEOUT_MS)
+    finally:
+        ctx.solver.pop()
+    if r == z3.unknown:
+        raise Unsupported("congruence of two transform applications undecided within the solver budget")
+    return r == z3.unsat
+
+
 def _provably_equal(ctx, a: SArr, b: SArr):
     if a.ndim != b.ndim:
         return False
@@ -117,7 +141,7 @@ def _provably_equal(ctx, a: SArr, b: SArr):
         ix = A.fresh_index(ctx, a.shape, "u")
         ea, eb = a.elem(ix), b.elem(ix)
         if isinstance(ea, Cx) or isinstance(eb, Cx):
-            return ctx.is_valid(V.ceq(ea, eb))
+            return _entailed_or_undecided(ctx, V.ceq(ea, eb))
         if (isinstance(ea, bool) or (is_sym(ea) and z3.is_bool(ea))) != (isinstance(eb, bool) or (is_sym(eb) and z3.is_bool(eb))):
             return False
         return ctx.is_valid(V.eq(ea, eb) if not (isinstance(ea, bool) or (is_sym(ea) and z3.is_bool(ea))) else V.Z(ea) == V.Z(eb))
